@@ -67,6 +67,18 @@ def h_roundtrip(ctx, t, n, twin=False):
     ref3, _ = ref_tm(ctx, dict(f, apid=apid2), items_of(ts), items_of(data))
     ctx.holds("space packet view after apid assignment == reference", tm3.to_space_packet().pack() == ctx.bytes_of(ref3))
     ctx.holds("pack after apid assignment == reference", tm3.pack() == ctx.bytes_of(ref3))
+    # octets handed over as bytearray / memoryview (source data at construction, the whole packet at decoding): every way of
+    # packing still yields the same octets
+    for flav in ("bytearray", "memoryview"):
+        def mk(items):
+            buf = ctx.bytes_of(list(items), mutable=True)
+            return ctx.view_of(buf) if flav == "memoryview" else buf
+        e, got = call(lambda: (lambda o: (o.pack(), o.to_space_packet().pack(), o == tm, o.packet_len))(PusTm(**dict(kw, source_data=mk(items_of(data))))))
+        ctx.holds("constructed with %s source data: pack, space packet view, ==, length" % flav,
+                  e is None and sym_and(got[0] == refb, got[1] == refb, got[2], got[3] == total), exc_name(e))
+        e, got = call(lambda: (lambda o: (o.pack(), o.to_space_packet().pack(), o == tm, o.packet_len))(PusTm.unpack(mk(ref), t)))
+        ctx.holds("decoded from a %s: pack, space packet view, ==, length" % flav,
+                  e is None and sym_and(got[0] == refb, got[1] == refb, got[2], got[3] == total), exc_name(e))
     decoded_object_owns_its_data(ctx, lambda d: PusTm.unpack(d, t), ref, lambda x: sym_and(x == tm, x.tm_data == data, x.timestamp == ts, x.pack() == raw))
     other1 = bytes(PusTm(service=200, subservice=9, timestamp=bytes(range(t)), source_data=b"\x55" * 5, apid=0x7FF, seq_count=0x3FFF,
                          message_counter=0xFFFF, destination_id=0x1234).pack())
